@@ -40,6 +40,7 @@ basestring = str
 _AbstractIterableBase = ABCMeta('_AbstractIterableBase', (object,), {})
 from collections import ChainMap
 from reprlib import Repr, recursive_repr
+from _thread import get_ident
 
 GLOM_DEBUG = os.getenv('GLOM_DEBUG', '').strip().lower()
 GLOM_DEBUG = False if (GLOM_DEBUG in ('', '0', 'false')) else True
@@ -522,9 +523,19 @@ class _BBRepr(Repr):
             if not isinstance(getattr(self, name), int):
                 continue
             setattr(self, name, 1024)
+        self._repr_running = set()
 
     def repr1(self, x, level):
-        ret = Repr.repr1(self, x, level)
+        # with the depth limit turned up, a container that contains
+        # itself has to be cut short here, like the built-in repr does
+        key = (id(x), get_ident())
+        if key in self._repr_running:
+            return {dict: '{...}', list: '[...]'}.get(type(x), '...')
+        self._repr_running.add(key)
+        try:
+            ret = Repr.repr1(self, x, level)
+        finally:
+            self._repr_running.discard(key)
         if not ret.startswith('<'):
             return ret
         return _BUILTIN_ID_NAME_MAP.get(id(x), ret)
